@@ -90,7 +90,7 @@ func checkC02(c *Ctx) {
 		"error identically (*zerr.Signal Continue -> next pass, Break -> return nil, anything else returned unchanged) and no other function inspects those signal kinds, so a signal reaches exactly the innermost loop; " +
 		"(C02.branch) every condition is asserted *Bool (comma-ok, error otherwise), each branch block is guarded by its own condition's true edge, is followed by a return, and later conditions are evaluated only on the false edges of earlier ones; " +
 		"(C02.dictorder) the dictionary pass walks the key-order list and insert / overwrite / 移除 keep that list in insertion order (same rules as C12.sync); (C02.while) the condition is evaluated on every cycle before the body; (C02.iter) the list pass binds index+1; (C02.last) a block's fall-off value is the last statement's value. " +
-		"Also: on the not-a-boolean edge of every condition assertion the statement ends with an error and evaluates nothing further (…:rejects). NOT decided: termination, what a particular program displays."
+		"Also: on the not-a-boolean edge of every condition assertion the statement ends with an error and evaluates nothing further (…:rejects). After a failing loop body only the continue-signal edge starts the next pass; evalProgram / evalExecBlock / evalStmtBlock return the inner evaluator's value unchanged on success; a copied dictionary walks keyOrder (C02.copyorder). NOT decided: termination, what a particular program displays."
 	R.Assumptions = []string{"vm.GetReturnValue reads the return slot of the current call frame (pkg/runtime/vm.go)", "Go's range over a slice visits elements in index order"}
 	u := c.Core()
 	u.buildSSA()
